@@ -38,6 +38,9 @@ for n in ('spmv_avx512_4x12', 'spmv_avx512_4x12_8'):
         UNITS.append(Unit('k_%s@lane%d' % (n, lane), 'l1_lane%d' % lane, 'k_' + n, replace=K1, functions=['Goldilocks::%s [lane %d] over the L1 contracts (%s)' % (n, lane, A)], timeout=900))
 for n, sp in (('mmult_avx512_4x12', 'spmv_avx512_4x12'), ('mmult_avx512_4x12_8', 'spmv_avx512_4x12_8')):
     UNITS.append(Unit('k_' + n, 'l2', 'k_' + n, replace=K1 + ['k_' + sp], functions=['Goldilocks::%s over the contracts of %s and the adders (%s)' % (n, sp, A)], timeout=900))
+for n, sp in (('mmult_avx512_4x12', 'spmv_avx512_4x12'), ('mmult_avx512_4x12_8', 'spmv_avx512_4x12_8')):
+    for al in ('ca0', 'ca2'):
+        UNITS.append(Unit('k_%s_%s' % (n, al), 'l2', 'k_%s_%s' % (n, al), replace=K1 + ['k_' + sp], functions=['Goldilocks::%s [output register == state register %s] (%s)' % (n, al[1:], A)], timeout=1200, tier='quick' if al == 'ca0' else 'thorough'))
 UNITS.append(Unit('k_dot_avx512', 'l2', 'k_dot_avx512', replace=['k_spmv_avx512_4x12'], functions=['Goldilocks::dot_avx512 over the contract of spmv_avx512_4x12 (%s)' % A], timeout=600))
 for n, mm in (('mmult_avx512', 'mmult_avx512_4x12'), ('mmult_avx512_8', 'mmult_avx512_4x12_8')):
     UNITS.append(Unit('k_' + n, 'l3', 'k_' + n, replace=['k_' + mm], functions=['Goldilocks::%s over the contract of %s (%s)' % (n, mm, A)], timeout=900))
